@@ -887,7 +887,7 @@ impl<T: PartialOrd> RangeBounds<T> for Interval<T> {
 
     fn end_bound(&self) -> Bound<&T> {
         match self.right() {
-            Some(high) => Bound::Excluded(high),
+            Some(high) => Bound::Included(high),
             None => Bound::Unbounded,
         }
     }
